@@ -6,7 +6,7 @@ usage: try_seeded.py <dir with patch.diff + demo.(c|sh)> <check ids,comma> [--ke
  3. each named check runs with VERIF_REPO=<scratch>; reports whether it printed VIOLATION.
 Writes <dir>/result.json."""
 import sys, os, subprocess, json, shutil, tempfile, time
-d = os.path.abspath(sys.argv[1]); checks = [c for c in sys.argv[2].split(",") if c]
+d = os.path.abspath(sys.argv[1]); checks = [c for c in sys.argv[2].split(",") if c and c != "-"]
 wt = tempfile.mkdtemp(prefix="seedwt_", dir="/var/tmp")
 os.rmdir(wt)
 def sh(cmd, **kw):
@@ -25,7 +25,9 @@ try:
             rc, out = sh("ASAN_OPTIONS=detect_leaks=0 timeout 600 %s" % exe, cwd=wt)
         else:
             sh("make -j8 -C programs lz4 >/dev/null 2>&1", cwd=wt, timeout=900)
-            rc, out = sh("timeout 900 sh %s" % os.path.join(d, demo), cwd=wt)
+            os.makedirs(os.path.join(wt, "SEEDED"), exist_ok=True)
+            shutil.copy(os.path.join(d, demo), os.path.join(wt, "SEEDED", demo))
+            rc, out = sh("timeout 900 sh %s" % os.path.join(wt, "SEEDED", demo), cwd=wt)
         return (rc, out[-600:])
     res["demo_clean"] = run_demo("clean")
     rc, out = sh("git apply %s" % patch, cwd=wt); res["apply"] = (rc, out[-300:])
